@@ -23,9 +23,12 @@ pub enum Tamper {
     OtherClientsAddress,
     OtherSessionsKeys,
     OtherProtocol,
+    /// sealed under a protocol id that differs from ours only in bit 40 / only in bit 63
+    OtherProtocolBit40,
+    OtherProtocolBit63,
 }
 
-const TAMPERS: [Tamper; 11] = [
+const TAMPERS: [Tamper; 13] = [
     Tamper::PrefixTypeBit,
     Tamper::PrefixLenBit,
     Tamper::SequenceBit,
@@ -37,6 +40,8 @@ const TAMPERS: [Tamper; 11] = [
     Tamper::OtherClientsAddress,
     Tamper::OtherSessionsKeys,
     Tamper::OtherProtocol,
+    Tamper::OtherProtocolBit40,
+    Tamper::OtherProtocolBit63,
 ];
 
 #[derive(Clone, Debug, PartialEq, Eq, Hash)]
@@ -60,6 +65,7 @@ pub struct Fixture {
     /// same sequence sealed under the other session's keys / another protocol id
     pub other_keys: Vec<Vec<u8>>,
     pub other_protocol: Vec<Vec<u8>>,
+    pub other_protocol_hi: Vec<[Vec<u8>; 2]>,
 }
 
 #[derive(Clone)]
@@ -100,6 +106,7 @@ pub fn build(rx: Rx, base: u64, offsets: &[u64]) -> Result<ReplayWorld, Violatio
     let mut genuine = vec![];
     let mut other_keys = vec![];
     let mut other_protocol = vec![];
+    let mut other_protocol_hi = vec![];
     for &s in &seqs {
         let p = payload_for(s);
         match rx {
@@ -114,6 +121,7 @@ pub fn build(rx: Rx, base: u64, offsets: &[u64]) -> Result<ReplayWorld, Violatio
                 let (_, d2) = g2.generate_payload_packet(&p).map_err(|e| Violation::new("C04/fixture", format!("{}", e)))?;
                 other_keys.push(d2.to_vec());
                 other_protocol.push(nc::seal(&Packet::Payload(&p), PROTOCOL ^ 1, s, &t1.client_to_server_key));
+                other_protocol_hi.push([nc::seal(&Packet::Payload(&p), PROTOCOL ^ (1 << 40), s, &t1.client_to_server_key), nc::seal(&Packet::Payload(&p), PROTOCOL ^ (1 << 63), s, &t1.client_to_server_key)]);
             }
             Rx::Client => {
                 let mut g = server.clone();
@@ -125,11 +133,12 @@ pub fn build(rx: Rx, base: u64, offsets: &[u64]) -> Result<ReplayWorld, Violatio
                 let (_, d2) = g2.generate_payload_packet(2, &p).map_err(|e| Violation::new("C04/fixture", format!("{}", e)))?;
                 other_keys.push(d2.to_vec());
                 other_protocol.push(nc::seal(&Packet::Payload(&p), PROTOCOL ^ 1, s, &t1.server_to_client_key));
+                other_protocol_hi.push([nc::seal(&Packet::Payload(&p), PROTOCOL ^ (1 << 40), s, &t1.server_to_client_key), nc::seal(&Packet::Payload(&p), PROTOCOL ^ (1 << 63), s, &t1.server_to_client_key)]);
             }
         }
     }
     Ok(ReplayWorld {
-        fx: Arc::new(Fixture { rx, seqs, genuine, other_keys, other_protocol }),
+        fx: Arc::new(Fixture { rx, seqs, genuine, other_keys, other_protocol, other_protocol_hi }),
         server,
         client: c1,
         accepted: BTreeSet::new(),
@@ -210,6 +219,8 @@ fn tamper(fx: &Fixture, i: usize, t: Tamper) -> (Vec<u8>, bool) {
         Tamper::OtherClientsAddress => other_addr = true,
         Tamper::OtherSessionsKeys => d = fx.other_keys[i].clone(),
         Tamper::OtherProtocol => d = fx.other_protocol[i].clone(),
+        Tamper::OtherProtocolBit40 => d = fx.other_protocol_hi[i][0].clone(),
+        Tamper::OtherProtocolBit63 => d = fx.other_protocol_hi[i][1].clone(),
     }
     (d, other_addr)
 }
